@@ -3,13 +3,18 @@ import PlumpyModel.ProcStack.Proof
 # C18 — `Process.current()` is the process whose code is running
 
 Model: `PlumpyModel/ProcStack/Model.lean` (tasks with context-local stacks, `_process_scope`, `_run_task`, `call_soon`,
-`launch`, re-entrant `execute()`, lifecycle hooks fired by `transition_to` after `_run_task` returned).
+`launch`, re-entrant `execute()`, lifecycle hooks fired by `transition_to` after `_run_task` returned; children awaited
+**inline** in the awaiting task — `await child.step_until_terminated()` inside a step or callback, under an absorbing
+`except BaseException` —, steps that end with a **BaseException**, and **cancellation** of a task at the await point
+where it is suspended: `unwind` = the `finally` of every open scope, innermost first, up to the absorbing handler).
 
 Everything below quantifies over **every scenario** (any number of process classes with any step/segment structure,
-callbacks, children and nested executions, any classes instantiated at top level) and **every list of events**, i.e.
-every order in which ready tasks are ticked and parked processes resumed (outermost loop and nested loops alike).
+callbacks, children — launched, executed re-entrantly or awaited inline, to any depth —, any step ending, any classes
+instantiated at top level) and **every list of events**, i.e. every order in which ready tasks are ticked, parked
+processes resumed or killed, callbacks scheduled from outside and tasks cancelled (outermost loop and nested loops alike).
 `(runEvents (init scn top) es).log` is the list of all samples of `Process.current()` taken by the code points of the
-run, `.scopes` the list of completed `_process_scope`s, `.err` the first error.
+run, `.scopes` the list of completed `_process_scope`s (each with the way it was left), `.joins` the list of completed
+inline awaits, `.err` the first error.
 
 Clause by clause:
 * "while a step, continuation or scheduled callback (and the output hooks they call) executes, current() is that
@@ -19,6 +24,12 @@ Clause by clause:
 * "once that code returns or yields, the previous value is what other code observes"
                                                             → `C18_scope_restores_self`, `C18_scope_restores_others`,
                                                               `C18_resume_touches_no_stack`, `C18_scope_restores`
+* the same when the code is left through an `Interruption`, a BaseException or a cancellation, and for the code that
+  awaited it in the same task                               → `C18_scope_restores_however_left`,
+                                                              `C18_inline_await_restores`, `C18_absorbing_code_in_scope`,
+                                                              `C18_unwind_well_scoped`, `C18_cancel_touches_no_stack`,
+                                                              `C18_finished_task_left_every_scope`,
+                                                              `C18_scope_restores_all`
 * the `assert` in `_process_scope` never fires              → `C18_scope_assertion_never_fails`
 -/
 namespace ProcStack
@@ -31,7 +42,10 @@ def C18_full : Prop :=
 /-- **C18, main clause.** Inside any code run through `_run_task` of `p` — entry of a step function or continuation,
 after each of its awaits, a callback scheduled with `call_soon` and after each of its awaits, the output hooks
 `on_output_emitting`/`on_output_emitted`, and the code right after `launch(..)`, `execute()`, `call_soon(..)`, `out(..)`
-returned — `Process.current()` is `p`; for every scenario and every interleaving. -/
+returned — `Process.current()` is `p`; for every scenario and every interleaving.  This includes the steps of a child that is
+awaited inline (they run in the awaiting task, on top of the awaiting process: the child is current), the code of the
+awaiting process after that await returned (`iret`) and inside the `except BaseException` clause that absorbed a
+BaseException or a cancellation coming out of the child (`absorbed`). -/
 theorem C18_current_in_scope (scn : Scenario) (top : List Nat) (es : List Event) :
     ∀ o ∈ (runEvents (init scn top) es).log, o.kind.inScope = true → o.cur = some o.owner :=
   (reachable_inv scn top es).log
@@ -57,6 +71,54 @@ theorem C18_scope_restores_self (scn : Scenario) (top : List Nat) (es : List Eve
     ∀ x ∈ (runEvents (init scn top) es).scopes, x.after = x.before :=
   (reachable_inv scn top es).scopes
 
+/-- **however a scope is left, the previous stack is restored**: the awaited code returned (`returned`: plain return,
+`Continue`, `Wait`, or an `Exception` that `Running.execute` turned into the EXCEPTED state), an `Interruption` was raised
+through it (`interrupted`: kill of a waiting process), user code raised a BaseException that is not an `Exception`
+(`baseException`), or the task was cancelled while suspended at an await point inside the scope (`cancelled`) — at any
+nesting depth of inline-awaited children, all of whose open scopes are then left one after the other. -/
+theorem C18_scope_restores_however_left (scn : Scenario) (top : List Nat) (es : List Event) (how : Exit) :
+    ∀ x ∈ (runEvents (init scn top) es).scopes, x.how = how → x.after = x.before :=
+  fun x hx _ => (reachable_inv scn top es).scopes x hx
+
+/-- **the code that awaits a child inline carries on where it was**: when the statement
+`try: await child.step_until_terminated()` / `except BaseException: ...` of process `p` is done — the child terminated, was
+killed, or a BaseException / the cancellation of the task came out of it and was absorbed — the task's stack is exactly
+what it was when the `try` was entered, and `Process.current()` is `p` again; whatever the child, its own inline children
+and every other task did in between. -/
+theorem C18_inline_await_restores (scn : Scenario) (top : List Nat) (es : List Event) :
+    ∀ j ∈ (runEvents (init scn top) es).joins, j.after = j.before ∧ current j.after = some j.pid :=
+  (reachable_inv scn top es).joins
+
+/-- the instance of `C18_current_in_scope` for the new code points: in the `except BaseException` clause that absorbed
+what came out of an inline-awaited child, and after that statement, `Process.current()` is the awaiting process — not the
+child whose step was left through the BaseException / cancellation -/
+theorem C18_absorbing_code_in_scope (scn : Scenario) (top : List Nat) (es : List Event) :
+    ∀ o ∈ (runEvents (init scn top) es).log, (o.kind = .absorbed ∨ o.kind = .iret) → o.cur = some o.owner := by
+  intro o ho hk
+  apply C18_current_in_scope scn top es o ho
+  rcases hk with h | h <;> simp [h, Kind.inScope]
+
+/-- **raising a BaseException at any point of a well-scoped coroutine leaves a well-scoped coroutine.**  `WF s sv c`
+(PlumpyModel/ProcStack/Proof.lean) says that the remaining coroutine `c` of a task, run on the task's stack `s`, has every
+scope exit find its own process on top and restore the stack saved at the matching entry, every in-scope sample find its
+owner on top, and every handler of an inline await run on the stack of its `try`.  `unwind how 0 c` is what remains of `c`
+when a BaseException is raised at its head: the exits of the open scopes, then the absorbing handler and what follows it
+(or nothing).  All compiled coroutines are `WF` on any stack (`wf_stepperOps`, `wf_cbOps`); this is the step that keeps the
+invariant of `reachable_inv` across `raise BaseBoom()` and across the delivery of a cancellation. -/
+theorem C18_unwind_well_scoped (how : Exit) (s : List Pid) (sv : List (List Pid)) (c : List Op) (h : WF s sv c) :
+    WF s sv (unwind how 0 c) := by
+  simpa using wf_unwind how c 0 s sv h
+
+/-- **a task that has ended has left every scope it entered** (`Task.saved` holds one entry per open scope): whether its
+coroutine returned, or a BaseException / a cancellation that nothing absorbed ended it in the middle of a step -/
+theorem C18_finished_task_left_every_scope (scn : Scenario) (top : List Nat) (es : List Event) :
+    ∀ T ∈ (runEvents (init scn top) es).tasks, T.done = true → T.saved = [] := by
+  intro T hT hd
+  have h := (reachable_inv scn top es).tasks T hT
+  simp only [Task.done, List.isEmpty_iff] at hd
+  rw [hd] at h
+  simpa [WF] using h
+
 /-- **running code of one task never changes what another task observes**: a tick of task `t` (a whole callback,
 including everything it pushes, pops, spawns, and the nested executions that return during it) leaves the record of
 every other task `u` — its stack, hence its `current()` — untouched, unless `u` is itself inside a nested
@@ -76,6 +138,12 @@ theorem C18_resume_touches_no_stack (σ : State) (t u : Tid) :
 theorem C18_kill_touches_no_stack (σ : State) (t u : Tid) :
     (step σ (.kill t)).tasks[u]?.map (·.stack) = σ.tasks[u]?.map (·.stack) :=
   kill_frame σ t u
+
+/-- requesting the cancellation of a task from outside changes no stack at all: the scopes are left by the cancelled task
+itself when it next runs (a tick, to which `C18_scope_restores_others` applies) -/
+theorem C18_cancel_touches_no_stack (σ : State) (t u : Tid) :
+    (step σ (.cancel t)).tasks[u]?.map (·.stack) = σ.tasks[u]?.map (·.stack) :=
+  cancel_frame σ t u
 
 /-- scheduling a callback from outside (`p.call_soon(cb)` between two callbacks) leaves every existing task untouched -/
 theorem C18_external_call_soon_touches_no_task (σ : State) (p : Pid) (cb : Nat) (u : Tid) (hu : u < σ.tasks.length) :
@@ -97,6 +165,20 @@ theorem C18_scope_restores (scn : Scenario) (top : List Nat) (es : List Event) (
   refine ⟨C18_scope_restores_self scn top es, ?_, C18_resume_touches_no_stack _ t u⟩
   intro hu hne hcs
   rw [C18_scope_restores_others _ t u hu hne hcs]
+
+/-- **C18, restore clause, with every way of leaving a scope** (on reachable states): completed scopes and completed
+inline awaits restored the stack; a tick touches no other task; resume, kill and cancel requests touch no stack -/
+theorem C18_scope_restores_all (scn : Scenario) (top : List Nat) (es : List Event) (t u : Tid) :
+    let σ := runEvents (init scn top) es
+    (∀ x ∈ σ.scopes, x.after = x.before) ∧
+    (∀ j ∈ σ.joins, j.after = j.before ∧ current j.after = some j.pid) ∧
+    (u < σ.tasks.length → u ≠ t → u ∉ σ.callStack → (step σ (.tick t)).tasks[u]? = σ.tasks[u]?) ∧
+    ((step σ (.resume t)).tasks[u]?.map (·.stack) = σ.tasks[u]?.map (·.stack)) ∧
+    ((step σ (.kill t)).tasks[u]?.map (·.stack) = σ.tasks[u]?.map (·.stack)) ∧
+    ((step σ (.cancel t)).tasks[u]?.map (·.stack) = σ.tasks[u]?.map (·.stack)) :=
+  ⟨C18_scope_restores_self scn top es, C18_inline_await_restores scn top es,
+   fun hu hne hcs => C18_scope_restores_others _ t u hu hne hcs,
+   C18_resume_touches_no_stack _ t u, C18_kill_touches_no_stack _ t u, C18_cancel_touches_no_stack _ t u⟩
 
 /-! ## The hook clause is false of the code: witnesses (known finding F14) -/
 
@@ -163,5 +245,59 @@ example : let σ := runEvents (init demoScn [0, 1]) (demoEvents.take 3)
 /-- while task 1 is suspended at its await (inside its scope) its own stack keeps the pushed process -/
 example : ((runEvents (init demoScn [0, 1]) (demoEvents.take 2)).tasks[1]?.map (fun T => current T.stack)) = some (some 1) := by
   decide
+
+/-! ## Non-vacuity for the inline / BaseException / cancellation constructs -/
+
+/-- class 0 (the parent): awaits a child of class 1 inline, samples, awaits, awaits a child of class 2 inline, then one of
+class 4; class 1: await, sample, `Wait`, then a step that raises a BaseException; class 2: await, awaits a child of class 3
+inline (nesting depth 3), await; class 3: sample, await, sample (also instantiated at top level: a peer in another task);
+class 4: out, `Wait` -/
+def inlineScn : Scenario :=
+  ⟨[[⟨[.inline 1, .obs, .await, .inline 2, .inline 4], .finish⟩],
+    [⟨[.await, .obs], .wait⟩, ⟨[.obs], .raiseBase⟩],
+    [⟨[.await, .inline 3, .await], .finish⟩],
+    [⟨[.obs, .await, .obs], .finish⟩],
+    [⟨[.out], .wait⟩, ⟨[], .finish⟩]],
+   []⟩
+
+/-- the parent (task 0, pid 0) and a peer (task 1, pid 1) interleaved; the first inline child (pid 2) is resumed from its
+wait and raises a BaseException; the task is cancelled while the child of the child (pid 4, stack 0·3·4) is suspended at
+its await; the last child (pid 5) is killed while it waits -/
+def inlineEvents : List Event :=
+  [.tick 0, .tick 1, .tick 0, .resume 0, .tick 0, .tick 0, .tick 1, .tick 0, .cancel 0, .tick 0, .tick 0, .kill 0, .tick 0]
+
+example : (runEvents (init inlineScn [0, 3]) inlineEvents).err = none := by decide
+example : (runEvents (init inlineScn [0, 3]) inlineEvents).tasks.all (·.done) = true := by decide
+/-- when the cancellation is requested, the task is suspended three scopes deep, in the step of pid 4 -/
+example : ((runEvents (init inlineScn [0, 3]) (inlineEvents.take 8)).tasks[0]?.map (·.stack)) = some [4, 3, 0] := by decide
+/-- scopes left in each of the four ways occur (15 in all), so `C18_scope_restores_however_left` is not vacuous for any `how` -/
+example : (runEvents (init inlineScn [0, 3]) inlineEvents).scopes.map (fun x => (x.pid, x.how)) =
+    [(0, .returned), (5, .interrupted), (5, .returned), (5, .returned), (3, .returned), (4, .cancelled), (4, .returned),
+     (1, .returned), (3, .returned), (2, .baseException), (2, .returned), (2, .returned), (1, .returned), (2, .returned),
+     (0, .returned)] := by decide
+/-- four inline awaits complete, two of them by absorbing (the BaseException of pid 2 in pid 0, the cancellation in pid 3) -/
+example : (runEvents (init inlineScn [0, 3]) inlineEvents).joins.map (fun j => (j.pid, j.before, j.absorbed)) =
+    [(0, [0], false), (0, [0], false), (3, [3, 0], true), (0, [0], true)] := by decide
+/-- the samples taken in the two absorbing `except` clauses -/
+example : ((runEvents (init inlineScn [0, 3]) inlineEvents).log.filter (·.kind == .absorbed)).map (fun o => (o.owner, o.cur)) =
+    [(3, some 3), (0, some 0)] := by decide
+/-- 27 in-scope samples in this run; the steps of the inline children run with the child current, e.g. pid 4 on 0·3·4 -/
+example : ((runEvents (init inlineScn [0, 3]) inlineEvents).log.filter (·.kind.inScope)).length = 27 := by decide
+example : (⟨4, .seg, some 4, [4, 3, 0], 0⟩ : Obs) ∈ (runEvents (init inlineScn [0, 3]) inlineEvents).log := by decide
+/-- hypothesis of `C18_unwind_well_scoped`: the coroutine of task 0 at the moment of the cancellation is `WF` on its stack
+(an instance of `reachable_inv`), with three open scopes and two handlers ahead; what `unwind` makes of it starts with the
+exit of the innermost scope and the handler of the process that awaits pid 4 -/
+example : ∀ T ∈ (runEvents (init inlineScn [0, 3]) (inlineEvents.take 8)).tasks, WF T.stack T.saved T.code :=
+  (reachable_inv inlineScn [0, 3] (inlineEvents.take 8)).tasks
+example : (((runEvents (init inlineScn [0, 3]) (inlineEvents.take 8)).tasks[0]?).map
+    (fun T => (T.stack, T.saved, T.code.length, T.code.take 1))) = some ([4, 3, 0], [[3, 0], [0], []], 37, [.obs 4 .aw]) := by decide
+example : let T := ((runEvents (init inlineScn [0, 3]) (inlineEvents.take 8)).tasks[0]?).getD default
+    ((unwind .cancelled 0 T.code).take 2) = [.pop 4 .cancelled, .handler 3 [3, 0] true] := by decide
+/-- a top-level process cancelled in the middle of its step: its task ends (nothing absorbs), the scope was left (`cancelled`),
+no transition hook ran after it, and the open-scope history of the finished task is empty -/
+example : let σ := runEvents (init ⟨[[⟨[.await, .obs], .finish⟩]], []⟩ [0]) [.tick 0, .cancel 0, .tick 0]
+    σ.err = none ∧ σ.tasks.map (fun T => (T.done, T.stack, T.saved)) = [(true, [], [])] ∧
+    σ.scopes.map (fun x => (x.pid, x.how, x.before, x.after)) = [(0, .cancelled, [], []), (0, .returned, [], [])] ∧
+    (σ.log.head?.map (·.kind)) = some .seg := by decide
 
 end ProcStack
